@@ -63,6 +63,7 @@ type schedCfg struct {
 	shutdown         bool          // graceful Shutdown at a tape-chosen moment
 	shutAtYield      int           // >0: request it at that scheduling point of the other tasks (else between requests)
 	slowSyncPermille int           // probability (per mille) that an fsync / sync(2) takes virtual time
+	lastNReads       bool          // readers also issue "last N" queries
 	tail             time.Duration // virtual time to let pass at the end
 	readAllBuckets   bool
 	coldStart        bool
@@ -96,6 +97,7 @@ func runSched(w *Workload, c schedCfg, seed uint64) *schedRun {
 		key   string
 		think time.Duration
 		align int // 0 = no; else 1+offset index
+		lastN int // read: >0 = "last N rows" query (its result is not judged; it exercises the backward scan while writes are pending)
 	}
 	plans := make([][]cop, c.writers+c.readers)
 	for ci := range plans {
@@ -127,7 +129,11 @@ func runSched(w *Workload, c schedCfg, seed uint64) *schedRun {
 				plans[ci] = append(plans[ci], cop{kind: "write", w: []*WriteReq{wr}, think: th, align: al})
 			} else {
 				b := w.Buckets[r.Intn(len(w.Buckets))]
-				plans[ci] = append(plans[ci], cop{kind: "read", key: b.Key(), think: th})
+				ln := 0
+				if c.lastNReads && r.Pct(35) {
+					ln = 1 + r.Intn(3)
+				}
+				plans[ci] = append(plans[ci], cop{kind: "read", key: b.Key(), think: th, lastN: ln})
 			}
 		}
 	}
@@ -232,6 +238,11 @@ func runSched(w *Workload, c schedCfg, seed uint64) *schedRun {
 						d := period - (simrt.NowNanos()-simStart)%period
 						d += []int64{-int64(time.Millisecond), 0, int64(time.Millisecond)}[p.align-1]
 						simrt.Sleep(time.Duration(d))
+					}
+					if p.kind == "read" && p.lastN > 0 {
+						// not part of the judged history
+						n.Query(&QuerySpec{Dest: p.key, Limit: p.lastN, FromStart: false})
+						continue
 					}
 					op := &schedOp{client: ci, kind: p.kind, w: p.w, key: p.key}
 					sr.ops = append(sr.ops, op)
@@ -841,6 +852,47 @@ func c18Engine() *Engine {
 		w := schedWorkload(seed, tier, 60)
 		c := schedCfg{writers: 2 + r.Intn(3), readers: 2 + r.Intn(3), opsPerClient: 4 + r.Intn(6), think: time.Duration(r.Intn(2)) * 200 * time.Millisecond, tail: time.Second, coldStart: r.Pct(20)}
 		c.slowSyncPermille = []int{0, 0, 0, 40, 150}[r.Intn(5)]
+		c.lastNReads = true
+		// at quiescence every committed row is visible to every kind of query: the
+		// last / first N rows are a suffix / prefix of the unlimited result (state
+		// that a query leaves behind while writes were pending must not outlive them)
+		var limitMismatch []string
+		c.after = func(n *Node) {
+			for _, b := range w.Buckets {
+				all, e := n.Query(&QuerySpec{Dest: b.Key()})
+				if e != nil {
+					continue
+				}
+				rows := all[b.Key()]
+				for _, N := range []int{1, 2, 5} {
+					for _, fromStart := range []bool{false, true} {
+						got, e2 := n.Query(&QuerySpec{Dest: b.Key(), Limit: N, FromStart: fromStart})
+						if e2 != nil {
+							continue // limit errors are C12's subject
+						}
+						g := got[b.Key()]
+						want := rows
+						if len(want) > N {
+							if fromStart {
+								want = want[:N]
+							} else {
+								want = want[len(want)-N:]
+							}
+						}
+						if b.Variable {
+							continue // C12's known finding (limit counted in intervals) applies
+						}
+						if _, same := rowsEqual(want, g); !same {
+							dir := "last"
+							if fromStart {
+								dir = "first"
+							}
+							limitMismatch = append(limitMismatch, fmt.Sprintf("%s|bucket %s: %s %d rows are %s, the unlimited result ends/starts with %s", dir, b.Key(), dir, N, descRows(g), descRows(want)))
+						}
+					}
+				}
+			}
+		}
 		if tier == "thorough" {
 			c.opsPerClient += 8
 		}
@@ -855,6 +907,16 @@ func c18Engine() *Engine {
 			return
 		}
 		historyViolations(sr, res, "C18", seed, false)
+		for _, m := range limitMismatch {
+			parts := strings.SplitN(m, "|", 2)
+			sig := "C18|limit-differs-at-quiescence|" + parts[0]
+			if sr.cold {
+				sig += "|cold-start"
+			}
+			res.AddViolation(&Violation{Prop: "C18", Class: "limit-differs-at-quiescence", Sig: sig, Seed: seed,
+				Detail: "after all requests returned: " + parts[1], Replay: map[string]interface{}{"engine": "sched", "history": describeHistory(sr)}})
+			break
+		}
 		res.Sample(map[string]interface{}{"seed": seed, "writers": c.writers, "readers": c.readers, "history": describeHistory(sr)})
 	}}
 }
